@@ -129,6 +129,31 @@ class ScriptedRng:
             x[i] = y[i]
 
 
+class ScriptedVisFn:
+    """visibility callable returning scripted boolean arrays (then random ones)"""
+
+    def __init__(self, script=None, seed=0):
+        self.script = list(script or [])
+        self.results = []
+        self.args = []
+        self.r = random.Random(seed)
+
+    def __call__(self, grid, position, *, rng=None):
+        import numpy as np
+        k = len(self.results)
+        self.args.append((copy.deepcopy(grid), position))
+        if k < len(self.script):
+            s = self.script[k]
+            arr = np.array(s['values'], dtype=bool).reshape(tuple(s['shape']))
+        else:
+            h, w = grid.shape.height, grid.shape.width
+            if self.r.random() < 0.1:
+                h += 1
+            arr = np.array([[self.r.random() < 0.6 for _ in range(w)] for _ in range(h)], dtype=bool).reshape((h, w))
+        self.results.append(arr)
+        return arr
+
+
 def decode(j):
     from gym_gridverse import grid_object as go
     from gym_gridverse.action import Action
@@ -175,6 +200,8 @@ def decode(j):
         return Observation(decode(j['Observation']['grid']), decode(j['Observation']['agent']))
     if 'Rng' in j:
         return ScriptedRng(j['Rng'])
+    if 'VisFn' in j:
+        return ScriptedVisFn(j['VisFn'], seed=len(json.dumps(j)))
     if 'const' in j:
         return ast.literal_eval(j['const'])
     if 'none' in j:
@@ -271,6 +298,8 @@ def rand_input(sort, r, ctx=None):
                                                       'grid_object': item}}}}
     if sort == 'Rng':
         return {'Rng': []}
+    if sort == 'VisFn':
+        return {'VisFn': [], 'salt': r.randint(0, 10 ** 6)}
     raise ValueError(f'no generator for sort {sort}')
 
 
